@@ -35,20 +35,20 @@ func newProto(w *World) *Proto {
 	p := &Proto{w: w}
 	p.Router = w.FoxType("Router")
 	p.Txn = w.FoxType("Txn")
-	p.Mu = w.FieldOfType(p.Router, "sync.Mutex", func(t types.Type) bool {
-		return isNamed(t, "sync", "Mutex") || isNamed(t, "sync", "RWMutex")
-	})
-	p.Tree = w.FieldOfType(p.Router, "atomic.Pointer[T] (or a pointer to the tree type)", func(t types.Type) bool {
+	p.TreeType = w.FoxType("iTree")
+	p.Tree = w.FieldOfType(p.Router, "atomic.Pointer[iTree] (or *iTree)", func(t types.Type) bool {
 		if isNamed(t, "sync/atomic", "Pointer") {
-			return true
-		}
-		if pt, ok := t.(*types.Pointer); ok {
-			if n := namedOf(pt.Elem()); n != nil && n.Obj().Name() == "iTree" {
+			if n, ok := types.Unalias(t).(*types.Named); ok && n.TypeArgs().Len() == 1 && namedOf(n.TypeArgs().At(0)) == p.TreeType {
 				return true
 			}
+			return false
+		}
+		if pt, ok := t.(*types.Pointer); ok {
+			return namedOf(pt.Elem()) == p.TreeType
 		}
 		return false
 	})
+	p.Mu = routerLockField(w, p.Router)
 	p.TreeType = w.FoxType("iTree")
 	p.RootTxn = w.Field(p.Txn, "rootTxn")
 	p.Write = w.Field(p.Txn, "write")
@@ -61,6 +61,51 @@ func newProto(w *World) *Proto {
 	p.CtxType = w.FoxType("cTx")
 	p.computeLoaders()
 	return p
+}
+
+// routerLockField resolves the writer lock: the field of Router of type sync.Mutex (or RWMutex). When the struct has
+// several mutexes, the writer lock is the one acquired by (*Router).txnWith, the function that opens transactions.
+func routerLockField(w *World, router *types.Named) *types.Var {
+	st := router.Underlying().(*types.Struct)
+	var cands []*types.Var
+	for i := 0; i < st.NumFields(); i++ {
+		t := st.Field(i).Type()
+		if isNamed(t, "sync", "Mutex") || isNamed(t, "sync", "RWMutex") {
+			cands = append(cands, st.Field(i))
+		}
+	}
+	if len(cands) == 1 {
+		return cands[0]
+	}
+	if len(cands) == 0 {
+		anchorFail("Router has no field of type sync.Mutex")
+	}
+	var found *types.Var
+	if fn := w.TryMethod("Router", "txnWith"); fn != nil {
+		eachInstr(fn, func(in ssa.Instruction) {
+			site, ok := in.(ssa.CallInstruction)
+			if !ok {
+				return
+			}
+			obj := calleeObj(site)
+			if obj == nil || (obj.Name() != "Lock" && obj.Name() != "RLock") {
+				return
+			}
+			if args := callArgs(site); len(args) > 0 {
+				if _, f, ok := fieldOfAddr(args[0]); ok {
+					for _, c := range cands {
+						if c == f {
+							found = f
+						}
+					}
+				}
+			}
+		})
+	}
+	if found == nil {
+		anchorFail("Router has %d mutex fields and none is acquired by txnWith", len(cands))
+	}
+	return found
 }
 
 // sites lists calls of sync/atomic.Pointer or sync.Mutex methods whose receiver is the given Router field.
